@@ -185,9 +185,12 @@ pub fn c02(x: &str, out: &str, cfg: &Cfg, ctx: &mut Ctx) -> bool {
         }
         if a.kind != b.kind {
             // comment sub-kind changed: inline <-> individual, or single <-> multi line
+            // (a comment behind a line comment that a lone CR ended counts as "on the same line" for
+            // the lexer; the reconstructor's last-resort line break then gives it a line of its own)
+            let sig = if crate::oracles::lone_cr_after_line_comment(x) { "comment-kind:line-comment-ended-by-lone-cr" } else { "comment-kind" };
             ctx.fail(
                 "C02",
-                "comment-kind",
+                sig,
                 format!("comment {i} {:?}: {:?} became {:?}; output {out:?}", a.text(x), a.kind, b.kind),
                 case(),
             );
